@@ -26,6 +26,8 @@ use mithril_common::StdResult;
 use mithril_common::entities::{BlockNumber, SlotNumber};
 use serde::{Deserialize, Serialize};
 
+pub const TIMEOUT: &str = "SimNode: timed out waiting for next chain block from the Cardano node";
+
 /// One block of the model chain.
 #[derive(Clone, Debug, PartialEq, Eq)]
 pub struct Blk {
@@ -350,7 +352,7 @@ impl Node {
             Idle::Timeout => {
                 self.ev.timeouts += 1;
                 self.conn = None;
-                Err(anyhow::anyhow!("SimNode: timed out waiting for next chain block from the Cardano node"))
+                Err(anyhow::anyhow!("{TIMEOUT}"))
             }
         }
     }
